@@ -149,6 +149,188 @@ def gen_family_case(r: random.Random, index: int) -> Dict[str, Any]:
     return gen_abs(r, index) if index % 2 == 0 else gen_order(r, index)
 
 
+# ----------------------------------------------------------------------------- family V
+#
+# A hash-relevant field of the judged component (mostly command.executable, also the arguments and the container
+# image) is NOT a literal but is spelled through a %(variable)s.  What the component runs is the text AFTER the
+# variable has been given its value, so (statement: "same strong hash exactly when they run the same executable with
+# the same arguments ... and use the same container image"):
+#   the value of the variable changes (where it is effectively defined)            -> strong must differ
+#   the same text spelled literally                                                -> strong must be equal
+#   a definition that does not reach the component changes (another variable, or a
+#   definition shadowed by a component / stage / platform definition)              -> strong must be equal
+#   the same package instantiated for another platform                            -> differ iff that platform gives the
+#                                                                                     variable another value
+#   sibling components of the SAME experiment: same template, other value -> differ; literal spelling -> equal
+# The layering used is the documented one and only its uncontroversial part: a component's own `variables` and the
+# variables of its stage take precedence over global ones; the global variables of the selected platform take precedence
+# over those of `default`.  The fuzzy hash is not judged for these edits (the statement says nothing about the fuzzy
+# hash under a change of the component's own definition) except through "producer's fuzzy hash changed => consumer's
+# fuzzy hash changes".
+
+V_FIELDS = ["executable", "executable", "executable", "executable", "arguments", "image"]
+V_SOURCES = ["component", "global", "stage", "component-over-global", "stage-over-global", "platform-over-default"]
+V_VALUES = {
+    "executable": ["echo", "cat", "ls", "wc", "sh", "head", "true", "sort"],
+    "arguments": ["hello", "-n", "x", "v=1", "0.5", "world", "7", "a:b"],
+    "image": ["img", "img2", "tool-a", "base", "py3"],
+}
+V_TEMPLATES = {
+    "executable": ["%(V)s", "%(V)s", "/usr/bin/%(V)s", "/opt/%(V)s/bin/run", "%(bindir)s/%(V)s"],
+    "arguments": ["%(V)s", "--opt=%(V)s", "%(V)s"],
+    "image": ["%(V)s", "registry.io/ns/%(V)s:1", "%(V)s:latest"],
+}
+V_BINDIR = "/usr/local/bin"
+
+
+def _v_text(sym: Dict[str, Any], value, literal: bool) -> str:
+    """the text of the varied field: the template with the variable's NAME (as %(name)s) or, literal, with `value`."""
+    t = sym["template"]
+    if literal:
+        return t.replace("%(V)s", value).replace("%(bindir)s", V_BINDIR)
+    return t.replace("%(V)s", "%%(%s)s" % sym["V"])
+
+
+def _v_component(sym: Dict[str, Any], name: str, value, literal: bool, own_variables=None) -> Dict[str, Any]:
+    field = sym["field"]
+    exe = _v_text(sym, value, literal) if field == "executable" else sym["exe"]
+    toks = [sym["lits"][0]]
+    if field == "arguments":
+        toks.append(_v_text(sym, value, literal))
+    toks += sym["refs"]
+    toks.append(sym["lits"][1])
+    d: Dict[str, Any] = {"name": name, "stage": sym["stage"]}
+    if sym["refs"]:
+        d["references"] = list(sym["refs"])
+    if own_variables:
+        d["variables"] = dict(own_variables)
+    d["command"] = {"executable": exe, "arguments": " ".join(toks)}
+    if sym["backend"]:
+        b = sym["backend"]
+        img = _v_text(sym, value, literal) if field == "image" else sym["image"]
+        d["resourceManager"] = {"config": {"backend": b}, b: {("dockerImage" if b == "lsf" else "image"): img}}
+    return d
+
+
+def _v_build(sym: Dict[str, Any]) -> Dict[str, Any]:
+    """materialisation case of the symbolic description `sym`"""
+    V, st, src = sym["V"], sym["stage"], sym["source"]
+    glob = {sym["unused"]: sym["unused_value"], "bindir": V_BINDIR}
+    stagevars: Dict[str, Any] = {}
+    compvars: Dict[str, Any] = {}
+    platglob: Dict[str, Any] = {}
+    if src == "global":
+        glob[V] = sym["x"]
+    elif src == "component":
+        compvars[V] = sym["x"]
+    elif src == "stage":
+        stagevars[V] = sym["x"]
+    elif src == "component-over-global":
+        compvars[V], glob[V] = sym["x"], sym["z"]
+    elif src == "stage-over-global":
+        stagevars[V], glob[V] = sym["x"], sym["z"]
+    elif src == "platform-over-default":
+        platglob[V], glob[V] = sym["x"], sym["z"]
+    else:
+        raise ValueError(src)
+    variables: Dict[str, Any] = {"default": {"global": glob}}
+    if stagevars:
+        variables["default"]["stages"] = {st: stagevars}
+    doc: Dict[str, Any] = {}
+    if sym["plat"]:
+        doc["platforms"] = ["default", sym["plat"]]
+        variables[sym["plat"]] = {"global": platglob or {sym["unused"]: sym["unused_value"] + "-on-platform"}}
+    doc["variables"] = variables
+    comps = []
+    if sym["producer"]:
+        comps.append({"name": sym["producer"], "stage": 0, "command": {"executable": "echo", "arguments": "made"}})
+    elif st > 0:
+        comps.append({"name": "filler", "stage": 0, "command": {"executable": "true", "arguments": "x"}})
+    comps.append(_v_component(sym, sym["work"], sym["x"], sym["literal"], compvars))
+    # siblings in the same stage: the same template with its own (component) value y; the literal spelling of x
+    comps.append(_v_component(sym, sym["sib"], sym["y"], False, {V: sym["y"]}))
+    comps.append(_v_component(sym, sym["lit"], sym["x"], True, None))
+    comps.append({"name": sym["cons"], "stage": st + 1, "references": ["stage%d.%s/out.txt:ref" % (st, sym["work"])],
+                  "command": {"executable": "cat", "arguments": "stage%d.%s/out.txt:ref" % (st, sym["work"])}})
+    doc["components"] = comps
+    outputs = {"stage%d.%s" % (c["stage"], c["name"]): {"out.txt": "O-%s" % c["name"], "out.stdout": "S-%s" % c["name"]}
+               for c in comps}
+    m = _mat(doc, data=dict(sym["data"]), outputs=outputs, where=sym["where"])
+    m["platform"] = sym["platform"]
+    return m
+
+
+def gen_var(r: random.Random, index: int) -> Dict[str, Any]:
+    field = r.choice(V_FIELDS)
+    source = V_SOURCES[index % len(V_SOURCES)] if r.random() < 0.85 else r.choice(V_SOURCES)
+    # (no dotted names: `%(a.b)s` is left uninterpolated everywhere, also in what is executed - not a hashing matter)
+    V = r.choice(["tool", "exe", "t", "x_y", "Tool2", "my-var", "T"])
+    x, y, z, z2, x2 = r.sample(V_VALUES[field], 5)
+    st = r.choice([0, 1, 1])
+    names = r.sample(NAMES, 5)
+    with_prod = st > 0 and r.random() < 0.6
+    data, refs = {}, []
+    if r.random() < 0.6:
+        data["data/in.txt"] = "data %d\n" % r.randrange(10 ** 6)
+        refs.append("data/in.txt:ref")
+    if with_prod:
+        refs.append("stage0.%s/out.txt:ref" % names[4])
+    r.shuffle(refs)
+    plat = None
+    if source == "platform-over-default" or r.random() < 0.5:
+        plat = r.choice(["other", "p1", "hpc-x"])
+    backend = None
+    if field == "image":
+        backend = r.choice(["kubernetes", "lsf"])
+    elif r.random() < 0.2:
+        backend = r.choice(["kubernetes", "lsf"])
+    sym = {"field": field, "source": source, "V": V, "template": r.choice(V_TEMPLATES[field]),
+           "unused": r.choice([V + "2", V + "s", "unused", "x" + V]), "unused_value": r.choice(V_VALUES[field]),
+           "x": x, "y": y, "z": z, "stage": st, "plat": plat,
+           "platform": plat if source == "platform-over-default" else None,
+           "exe": r.choice(EXES), "image": "registry.io/ns/fixed:1", "backend": backend,
+           "lits": [r.choice(LITS), r.choice(LITS)], "refs": refs, "data": data,
+           "producer": names[4] if with_prod else None,
+           "work": names[0], "sib": names[1], "lit": names[2], "cons": names[3], "literal": False, "where": "A"}
+    E = _v_build(sym)
+    judged = "stage%d.%s" % (st, sym["work"])
+    cons = "stage%d.%s" % (st + 1, sym["cons"])
+    base_detail = {"field": field, "spelled": _v_text(sym, x, False), "variable": V, "defined_by": source, "value": x}
+    variants = []
+
+    def add(vid, s, strong, detail, **kw):
+        d = dict(base_detail)
+        d.update(detail)
+        v = {"id": vid, "case": _v_build(s) if s is not None else None, "strong": strong, "fuzzy": NOCLAIM, "detail": d}
+        v.update(kw)
+        variants.append(v)
+
+    s = dict(sym, x=x2, where="B")
+    add("V1-value-of-the-variable-changed", s, DIFFER, {"new_value": x2}, chain=[cons, judged])
+    s = dict(sym, literal=True, where="B")
+    add("V2-same-text-spelled-literally", s, EQUAL, {"literal": _v_text(sym, x, True)})
+    if source in ("component-over-global", "stage-over-global", "platform-over-default"):
+        s = dict(sym, z=z2, where="B")
+        add("V3-shadowed-definition-changed", s, EQUAL, {"shadowed_global_value": "%s -> %s" % (z, z2)})
+    else:
+        s = dict(sym, unused_value=sym["unused_value"] + "-changed", where="B")
+        add("V3-unrelated-variable-changed", s, EQUAL, {"unrelated_variable": sym["unused"]})
+    if plat:
+        if source == "platform-over-default":
+            s = dict(sym, platform=None, where="B")     # `default` gives the variable the value z != x
+            add("V4-platform-gives-the-variable-another-value", s, DIFFER, {"platform": "default", "value_there": z})
+        else:
+            s = dict(sym, platform=plat, where="B")     # the platform only redefines the unrelated variable
+            add("V4-platform-leaves-the-variable-alone", s, EQUAL, {"platform": plat})
+    # siblings inside E itself (two components of one experiment)
+    add("V5-sibling-same-template-other-value", None, DIFFER, {"sibling_value": y}, within=True,
+        judged_prime="stage%d.%s" % (st, sym["sib"]))
+    add("V6-sibling-spells-the-same-text-literally", None, EQUAL, {"literal": _v_text(sym, x, True)}, within=True,
+        judged_prime="stage%d.%s" % (st, sym["lit"]))
+    return {"fam": "V", "index": index, "E": E, "judged": judged, "variants": variants,
+            "klass": "V:%s:%s:%s:plat%d:stage%d" % (field, source, sym["template"], int(bool(plat)), st)}
+
+
 # ----------------------------------------------------------------------------- structural classifiers
 
 def names_absolute_reference_on_cmdline(case: Dict[str, Any], judged: str) -> bool:
